@@ -136,6 +136,14 @@ func c05(c *Ctx) (*report.Result, error) {
 	if g := resolve(c, res, "O5.4", anchor{"proxy", "*proxyIDRingBuffer", "AggregateUpTo"}); g != nil {
 		checkAggregateMax(c, res, g, "O5.4")
 	}
+	res.RuleDoc["O5.9"] = "what is recorded is what will be translated back: every Append made by sendReplicationMessages pairs the allocated proxy id with the routed message's own source shard and original id (same analysis as O2.2) - an entry filed under another shard acknowledges that shard at an id from a foreign id space and leaves the real one unacknowledged"
+	if g := resolve(c, res, "O5.9", anchor{"proxy", "*proxyStreamSender", "sendReplicationMessages"}); g != nil {
+		tmp := newResult("C05")
+		checkAllocator(c, tmp, g)
+		if n := importObligations(res, tmp, "O5.9", func(o report.Obligation) bool { return strings.Contains(o.Construct, "Append #") }); n < 2 {
+			res.Undec("O5.9", "sendReplicationMessages: ring appends", fnPos(c.Prog, g), fmt.Sprintf("%d Append obligations imported, 2 expected", n))
+		}
+	}
 	res.RuleDoc["O5.6"] = "growth grows: the slice ensureCapacity allocates has length 2*len(entries), or a positive constant only where that is 0"
 	checkRingGrowthGrows(c, res, "O5.6")
 	res.RuleDoc["O5.7"] = "startProxyID is the head entry's proxy id: Append sets it to the appended id exactly when the buffer is empty (one store, under size == 0, passed on every empty-side path) - Discard's advance is O5.3"
